@@ -5,11 +5,22 @@ from core import frac, unfrac
 from math import gcd
 
 
-def impl_encode(notes, cols):
+def impl_encode(notes, cols, history=0):
     from simfile.notes import NoteData
     try:
         nd = NoteData.from_notes([gen.mknote(j) for j in notes], cols)
-        return {"ok": str(nd), "cols": nd.columns, "back": [gen.jnote(n) for n in nd]}
+        out = {"ok": str(nd), "cols": nd.columns, "back": [gen.jnote(n) for n in nd]}
+        if history:
+            # a history on the written object: peek at the first notes, then read everything, then rebuild from the object itself
+            nd2 = NoteData.from_notes([gen.mknote(j) for j in notes], cols)
+            it = iter(nd2)
+            for _ in range(history):
+                next(it, None)
+            del it
+            out["after_partial"] = [gen.jnote(n) for n in nd2]
+            out["rebuilt"] = str(NoteData.from_notes(nd2, nd2.columns))
+            out["copy"] = [gen.jnote(n) for n in NoteData(nd2)]
+        return out
     except Exception as e:
         return {"err": core.exc_name(e)}
 
@@ -66,9 +77,16 @@ def run(ctx):
         dens = {unfrac(n[0]).denominator for n in notes}
         res.case(case, nontrivial=len(notes) >= 2 and (len(dens) > 1 or len({n[3] for n in notes}) > 1))
         res.traces += 1
-        impl = impl_encode(notes, cols)
+        impl = impl_encode(notes, cols, history=rng.choice([0, 1, 1, 2, 4]))
         if "ok" not in impl:
             res.violation(case, "from_notes raised on a valid stream", impl=impl); continue
+        if "after_partial" in impl:
+            res.count("object_histories")
+            if impl["after_partial"] != notes or impl["copy"] != notes:
+                res.violation(case, "reading the written note data again after a partial read gives different notes",
+                              impl=_first_diff(impl["after_partial"], notes)); continue
+            if impl["rebuilt"] != impl["ok"]:
+                res.violation(case, "rebuilding from the note data object after a partial read changes the text"); continue
         if impl["back"] != notes:
             res.violation(case, "notes do not read back identically", impl=_first_diff(impl["back"], notes)); continue
         if impl["cols"] != cols:
